@@ -40,7 +40,8 @@ PARTIAL = [
     "but not run against the implementation (basis data are not among the property's object kinds)",
     "in-place mutation of an object's dictionaries with items of the RIGHT class (`fd.argvals[k] = grid of another size`, `pop`, "
     "`del`) bypasses the setters' compatibility check: outside the property's operation list, not modelled",
-    "numeric content of argvals_stand (only its class and numbers of points are modelled)",
+    "numeric content of an explicitly ASSIGNED argvals_stand (class and numbers of points only); the computed one is modelled "
+    "exactly for dense grids (`normalizeGrid`), irregular data: oracle only (extremes over all observations)",
     "dimension of an empty irregular dataset (n_dimension raises StopIteration; mirrored, not judged)",
 ]
 EXHAUSTIVE = {"quick": False, "thorough": True}
